@@ -34,9 +34,12 @@ def cfg(L, edge=True):
 
 def make_closure(kind, flag):
     import pyPRISM.closure as C
+    # the flag as users pass it: a bool, a numpy bool, or 0/1
+    style = len(kind) % 3
+    arg = np.bool_(flag) if style == 1 else (int(flag) if style == 2 else bool(flag))
     with warnings.catch_warnings():
         warnings.simplefilter('ignore')
-        return getattr(C, kind)(apply_hard_core=flag)
+        return getattr(C, kind)(apply_hard_core=arg)
 
 
 def potential_family(name, r, c, rng):
